@@ -18,7 +18,7 @@ use std::io::Cursor;
 use tokio::io::{AsyncReadExt, AsyncWriteExt};
 use tokio::sync::oneshot;
 
-const PLACEHOLDER: &str = "x0707070707070707070707070707070707070707";
+pub const PLACEHOLDER: &str = "x0707070707070707070707070707070707070707";
 
 struct Conn {
     peer: tokio::io::DuplexStream,
@@ -481,7 +481,12 @@ pub fn gen_sys(r: &mut Rng) -> String {
                 11 | 12 => format!("f{}:ch", k),
                 13 => format!("f{}:in", k),
                 14 => format!("f{}:ni", k),
-                15 | 16 => format!("f{}:hv,{}", k, r.below(np as u64)),
+                // now and then an index just behind the last piece (or far behind): the task must end the connection,
+                // the manager must never see it
+                15 | 16 => {
+                    let i = if r.chance(1, 5) { *r.pick(&[np as u64, np as u64 + 1, 0xffff_ffff]) } else { r.below(np as u64) };
+                    format!("f{}:hv,{}", k, i)
+                }
                 17 => format!("f{}:ka", k),
                 18 => format!("e{}", k),
                 _ => format!("f{}:un", k),
